@@ -123,7 +123,7 @@ a(r'Symbolizer::get_symbols::.*\|assert:overflow:Add\|_\d+\.symbols_(requested|p
 
 # ---------------------------------------------------------------- minidump_unwind
 a(r'amd64::get_caller_by_frame_pointer::\{closure#0\}\|assert:overflow:Mul\|offset offset_step', 'offset in 0..=offset_max_scan (0 or 15), offset_step 0 or 16: literals at the two call sites')
-a(r'amd64::get_caller_by_frame_pointer::\{closure#0\}\|assert:overflow:Add', 'FIND: last_bp + offset + POINTER_WIDTH*2 with offset up to 240 is only guarded by last_bp < MAX - 16')
+a(r'amd64::get_caller_by_frame_pointer::\{closure#0\}\|assert:overflow:Add\|frame_bp \(item minidump_unwind::amd64::POINTER_WIDTH\)', 'dominated by the success of `frame_bp.checked_add(POINTER_WIDTH * 2)?` two lines above, so frame_bp + POINTER_WIDTH also fits', 'C05.8')
 a(r'(x86|amd64)::get_caller_by_scan::\{closure#0\}\|assert:overflow:Sub\|address_of_ip \(item', 'dominated by i > 0, and address_of_ip = checked_add(last_sp, i*PTR)? >= i*PTR >= PTR')
 a(r'(x86|amd64)::get_caller_by_scan::\{closure#0\}\|assert:overflow:Sub\|bp address_of_bp', 'dominated by bp > address_of_ip and address_of_ip > address_of_bp')
 a(r'arm64(_old)?::get_caller_by_frame_pointer\|assert:overflow:Add\|last_fp', 'dominated by the early return on last_fp >= u64::MAX - POINTER_WIDTH * 2', 'C05.8')
@@ -152,7 +152,8 @@ a(r'op_analysis::amd64::.*\|call:panic:(panic_fmt|panic|begin_panic)', 'ASSUMPTI
 a(r'process_state::Address as std::fmt::Display>::fmt\|call:tls_with:with', 'LocalKey::with panics only during thread teardown; formatting happens on a live thread')
 a(r'process_state::Address as std::fmt::Display>::fmt::\{closure#0\}\|call:refcell:borrow', 'the only borrow_mut of SERIALIZATION_CONTEXT is in set_print_context and is released before it returns; no re-entrancy')
 a(r'ProcessState::set_print_context(::\{closure#0\})?\|call:(tls_with:with|refcell:borrow_mut)', 'short borrow_mut with no call-out while held; LocalKey::with on a live thread')
-a(r'LinuxProcLimits as std::convert::From<.*>>::from::\{closure#3\}\|call:index:index\|m [0123]', 'FIND: m[0..3] on a line split that may have fewer than 4 fields')
+a(r'LinuxProcLimits as std::convert::From<.*>>::from::\{closure#\d\}\|call:index:index\|m [012]', 'the iterator stage before this closure is .filter(|m| m.len() >= 3): only vectors with at least 3 fields reach it', 'C03.limits')
+a(r'LinuxProcLimits as std::convert::From<.*>>::from::\{closure#\d\}\|call:index:index\|m 3', 'read only in the else branch of `m.len() == 3` after .filter(|m| m.len() >= 3), i.e. with at least 4 fields', 'C03.limits')
 a(r'confidence::combine::\{closure#0\}\|call:op_trait:sub', 'f32 subtraction (<&f32 as Sub>): floats do not panic')
 a(r'BitFlipDetails::confidence\|assert:overflow:Sub', 'dominated by self.nearby_registers > 0, and NEARBY_REGISTER.len() = 4 > 0: min(..) >= 1', 'C19.4')
 a(r'BitFlipDetails::confidence\|assert:bounds\|nearby 4', 'nearby = min(n, 4) - 1 <= 3', 'C19.4')
